@@ -84,7 +84,7 @@ def run(rep, tier, seed):
                 'now) on an hour grid spanning several days (6-hour grid in the quick tier, 1-hour grid in the thorough '
                 'tier), recordings saved at every grid instant <= now; each state is one lookup on the real S3TapeCassette '
                 'over the fake bucket with controlled datetime and bucket clock, the returned set must equal the window '
-                'exactly and be duplicate-free; plus random minute-level windows. non-trivial = window with a start whose '
+                'exactly and be duplicate-free; plus random minute-level windows, and pairs of lookups with different windows whose lazy results are consumed interleaved. non-trivial = window with a start whose '
                 'end (or now) is on a later day; distinct = state')
     rep.assumptions = ['process clock in UTC', 'recordings are created and saved at the same instant',
                        'recordings are not in the future', 'fake bucket: last_modified = time of the put']
@@ -194,6 +194,38 @@ def minute_level(rep, seed, n):
                                           % (mode, start, end, len(exp - gs), len(gs - exp), got[:150] if isinstance(got, str) else ''),
                                'signature': None}, replay={'kind': 'minute', 'seed': seed, 'index': i})
         rep.extra['minute_level_windows'] = n
+        # two lookups with different windows on one cassette, their (lazy) results consumed interleaved: each is exact for
+        # its own window
+        m = 0
+        for i in range(max(20, n // 20)):
+            wins = []
+            for _w in range(2):
+                s = BASE + datetime.timedelta(minutes=rnd.randrange(span))
+                e = s + datetime.timedelta(minutes=rnd.randrange(1, 3 * 24 * 60))
+                wins.append((s, e))
+            _Clock.now = last
+            b.writer.verif_store.now = last
+            try:
+                it_a = iter(b.reader.iter_recording_ids('Cat', start_date=wins[0][0], end_date=wins[0][1]))
+                got_a = []
+                try:
+                    got_a.append(next(it_a))
+                except StopIteration:
+                    pass
+                got_b = list(b.reader.iter_recording_ids('Cat', start_date=wins[1][0], end_date=wins[1][1]))
+                got_a += list(it_a)
+            except Exception as ex:  # noqa
+                rep.violation({'summary': 'interleaved lookups raised %r' % (ex,), 'signature': None}, replay={'kind': 'minute', 'seed': seed, 'index': -1})
+                break
+            rep.evaluations += 2
+            m += 1
+            for (s, e), got, which in ((wins[0], got_a, 'first (started, then continued after the other ran)'), (wins[1], got_b, 'second')):
+                exp = set(k for k, inst in b.ids.items() if s <= inst <= e)
+                if set(got) != exp or len(got) != len(set(got)):
+                    rep.violation({'summary': 'interleaved lookups: the %s lookup, window %s .. %s: missed %d, outside %d, duplicates %d'
+                                              % (which, s, e, len(exp - set(got)), len(set(got) - exp), len(got) - len(set(got))),
+                                   'signature': None}, replay={'kind': 'minute', 'seed': seed, 'index': -1})
+        rep.extra['interleaved_lookup_pairs'] = m
     finally:
         b.close()
 
